@@ -2,7 +2,8 @@
 # Build the verification machinery from files on disk only (offline).
 set -eu
 export CARGO_NET_OFFLINE=true
-mkdir -p /verif/.build /verif/evidence /verif/replays
-cd /verif/sim
+H="$(cd "$(dirname "${BASH_SOURCE[0]}")" && pwd)"
+mkdir -p "$H/.build" "$H/evidence" "$H/replays"
+cd "$H/sim"
 cargo build --release --offline 2>&1 | tail -3
 echo "setup ok"
